@@ -112,12 +112,15 @@ impl<'b> Bytes<'b> {
 
     #[inline]
     pub fn as_string(&self, encoding: &'static Encoding) -> String {
-        encoding.decode(self.0).0.into_owned()
+        encoding.decode_without_bom_handling(self.0).0.into_owned()
     }
 
     #[inline]
     pub fn as_lowercase_string(&self, encoding: &'static Encoding) -> String {
-        encoding.decode(self.0).0.to_ascii_lowercase()
+        encoding
+            .decode_without_bom_handling(self.0)
+            .0
+            .to_ascii_lowercase()
     }
 
     #[inline]
